@@ -1,3 +1,3 @@
 R BHS.SyncNode
 R BHS.SyncSpec
-X SyncNode.least_above SyncSpec.rows_of SyncSpec.spec_forbidden_absent SyncSpec.spec_desc_orphan SyncSpec.spec_stop SyncSpec.spec_advance
+X SyncNode.least_above SyncSpec.rows_of SyncSpec.spec_forbidden_absent SyncSpec.spec_desc_orphan SyncSpec.spec_desc_orphan_all SyncSpec.spec_stop SyncSpec.spec_advance
